@@ -1110,7 +1110,7 @@ class SshX509Certificate(ParsableBase, SshHostKeyBase):
             public_key_length = parser['public_key_length']
 
         try:
-            parser.parse_raw('public_key', public_key_length, PublicKeyX509.from_der)
+            parser.parse_raw('public_key', public_key_length, PublicKeyX509.from_der_checked)
         except (NotEnoughData, InvalidValue) as e:
             six.raise_from(InvalidValue(parser.unparsed, cls, 'public_key'), e)
 
@@ -1168,10 +1168,7 @@ class SshX509CertificateChain(ParsableBase, SshHostKeyBase):
         certificates = []
         for _ in range(parser['certificate_count']):
             parser.parse_bytes('certificate', 4)
-            try:
-                certificates.append(PublicKeyX509.from_der(bytes(parser['certificate'])))
-            except ValueError as e:
-                six.raise_from(InvalidValue(bytes(parser['certificate']), cls, 'certificate'), e)
+            certificates.append(PublicKeyX509.from_der_checked(parser['certificate']))
         if not certificates:
             raise InvalidValue(parser['certificate_count'], cls, 'certificate_count')
 
